@@ -673,7 +673,7 @@ pub fn run_game(ctx: &Ctx, rep: &mut Report, c10: bool, c11: bool) {
     let corpus = corpus_positions();
     let rev: Vec<RPos> = reversible_starts().iter().map(|f| RPos::from_fen(f).unwrap()).collect();
     let promo: Vec<RPos> = promotion_starts().iter().map(|f| RPos::from_fen(f).unwrap()).collect();
-    let n = if c11 { ctx.budget(2500, 25_000, 1, 60) } else { ctx.budget(12_000, 150_000, 2, 200) };
+    let n = if c11 { ctx.budget(2500, 25_000, 1, 60) } else { ctx.budget(12_000, 150_000, 1, 200) };
     ctx.cases(rep, "games", n, |_gid, rng, rep| {
         let (start, pol, len) = if c11 {
             match rng.below(10) {
@@ -760,6 +760,44 @@ pub fn run_game(ctx: &Ctx, rep: &mut Report, c10: bool, c11: bool) {
         }
         mon.play(&start, pol, len, rng, rep);
     });
+    // directed: every value of the promotion field on a promoting pawn's move (None, the four pieces, King,
+    // Pawn) and on an ordinary move, as move attempts of a game: accepted exactly for the legal ones (also
+    // under Miri: a lookup table indexed by the promotion piece ends one entry early for the king)
+    if c10 {
+        ctx.cases(rep, "promotion-attempts", 1, |_g, rng, rep| {
+            if ctx.shard >= 4 {
+                return;
+            }
+            for fen in ["4k3/P7/8/8/8/8/8/4K3 w - - 0 1", "1r2k3/P7/8/8/8/8/8/4K3 w - - 0 1", "4k3/8/8/8/8/8/p7/1R2K3 b - - 0 1", "4k3/8/8/8/8/8/4P3/4K3 w - - 0 1"].iter() {
+                let start = RPos::from_fen(fen).unwrap();
+                let mut run = Run { g: Game::new_with_board(Board::from_str(fen).unwrap()), m: ModelGame::new(&start), frozen: None, mon: &mon, trace: vec![], dead: false };
+                rep.count("ev_games");
+                let legal = run.m.cur.legal_moves();
+                let mut tried: Vec<RMove> = vec![];
+                for l in legal.iter() {
+                    for promo in [0u8, K, P, Q, R, B, N].iter() {
+                        let m = RMove::new(l.from, l.to, *promo);
+                        if !legal.contains(&m) && !tried.contains(&m) {
+                            tried.push(m);
+                        }
+                    }
+                }
+                rng.shuffle(&mut tried);
+                for m in tried.iter().take(if miri { 8 } else { 60 }) {
+                    rep.count("ev_promotion_field_attempts");
+                    mon.try_move(&mut run, *m, None, &legal, rep);
+                    if run.dead {
+                        break;
+                    }
+                }
+                // and a legal one goes through afterwards
+                if !run.dead {
+                    let m = *rng.pick(&legal);
+                    mon.try_move(&mut run, m, None, &legal, rep);
+                }
+            }
+        });
+    }
     // directed: a very long action log (draw offers are logged and unbounded): counters and caches that
     // assume "a game is short" wrap or fall behind; few full checks, every return value judged
     if c10 && !miri && ctx.shard == 0 {
